@@ -108,7 +108,7 @@ theorem handleExtra_tr {r r' : RegInfo → List Line → Res (List Col)}
         simp only [Except.map, extraReg_tr]
         have hr := hrec (extraReg g eb) nc
         simp only [trL] at hr
-        by_cases hm : mcw > 0
+        by_cases hm : mcw > recGuard
         · simp only [if_pos hm, hr]
           cases r (extraReg g eb) nc with
           | error e => rfl
